@@ -249,6 +249,42 @@ def _placeholder_width(prog: Program, run: Run, R: str = "C01.R2") -> None:
 
 
 # ----------------------------------------------------------------------- R1
+def encode_state_roots(prog: Program, run: Run, R: str = "C01.R1") -> None:
+    """Whoever creates an EncodeState starts a PDU: the object it encodes IS the end of that PDU
+    (its last parameter gets no terminator, END-OF-PDU fields are allowed).  The effective
+    `is_end_of_pdu` of every construction -- keyword or class default -- is True."""
+    ci = prog.cls("EncodeState")
+    default = None
+    for st in ci.node.body:
+        if isinstance(st, ast.AnnAssign) and isinstance(st.target, ast.Name) and \
+                st.target.id == "is_end_of_pdu" and st.value is not None:
+            default = st.value
+    n = 0
+    for f in prog.iter_functions():
+        if not f.module.rel.startswith("odxtools/"):
+            continue
+        for x in walk_no_nested(f.node):
+            if not (isinstance(x, ast.Call) and call_name(x) == "EncodeState"):
+                continue
+            n += 1
+            kw = [k.value for k in x.keywords if k.arg == "is_end_of_pdu"]
+            eff = kw[0] if kw else default
+            if isinstance(eff, ast.Constant) and eff.value is True:
+                run.ok(R, f"{f.module.rel}:{f.qual}", "the new EncodeState starts at the end of "
+                       "the PDU (is_end_of_pdu is True" + ("" if kw else " by default") + ")",
+                       f"{f.module.rel}:{x.lineno}")
+            else:
+                run.violation(R, f"{f.module.rel}:{f.qual}", "root-not-end-of-pdu",
+                              f"`{ast.unparse(x)[:70]}` starts a PDU with is_end_of_pdu = "
+                              f"{ast.unparse(eff) if eff is not None else '?'}: the last "
+                              "parameter of the request / response / constant prefix is encoded "
+                              "as if something followed it (a MIN-MAX-LENGTH value gets a "
+                              "terminator, an END-OF-PDU field is refused)",
+                              f"{f.module.rel}:{x.lineno}", ast.unparse(x)[:80])
+    if n < 3:
+        raise AnalysisError(f"only {n} EncodeState(...) constructions found (expected 3)")
+
+
 def _origin_window(prog: Program, run: Run, R: str = "C01.R1") -> None:
     """Everything a composite object places relative to ITS origin is placed while the origin is
     moved: no call that follows the restore of origin_byte_position may reach a method that
@@ -370,6 +406,7 @@ def _pairing(prog: Program, run: Run) -> None:
     R = "C01.R1"
     _origin_window(prog, run, R)
     _probe_restores(prog, run, R)
+    encode_state_roots(prog, run, R)
     n_origin = 0
     for f in prog.iter_functions():
         S = _state_name(f)
